@@ -25,7 +25,17 @@ import (
 )
 
 func c08cliScan(sfw, db, file string, thr string, exact bool) ([]detection.ScanResult, string, error) {
-	args := []string{"scan", "--no-sandbox", "--db", db, "--threshold", thr}
+	return c08cliScanMode(sfw, db, file, thr, exact, true)
+}
+
+// noSandbox=false takes the default path of the command: it re-executes itself as a sandboxed
+// worker (or, where no sandbox runtime is installed, as a plain child) and hands the options over
+// on the worker's command line.
+func c08cliScanMode(sfw, db, file string, thr string, exact, noSandbox bool) ([]detection.ScanResult, string, error) {
+	args := []string{"scan", "--db", db, "--threshold", thr}
+	if noSandbox {
+		args = append(args, "--no-sandbox")
+	}
 	if exact {
 		args = append(args, "--exact")
 	}
@@ -52,7 +62,7 @@ func TestVerifC08CLI(t *testing.T) {
 		r.Fail("sfw binary missing: %v", err)
 		return
 	}
-	thresholds := []string{"0.01", "0.5", "0.75", "0.9", "0.99", "0.999", "1.0", "1"}
+	thresholds := []string{"0.0000001", "0.01", "0.5", "0.75", "0.9", "0.99", "0.999", "1.0", "1"}
 	pick := []string{"strings", "crosspkg", "longunicode"}
 	idx := 0
 	for _, id := range pick {
@@ -112,6 +122,12 @@ func TestVerifC08CLI(t *testing.T) {
 						r.Fail("sfw scan --exact: %v", err)
 						return
 					}
+					viaWorker, _, werr := c08cliScanMode(sfw, db, file, thr, false, false)
+					if werr != nil {
+						r.Note("default (re-executing) scan path unavailable here: %v", werr)
+						r.NotExhaustive("re-executing scan path not exercised")
+						viaWorker = nil
+					}
 					r.Eval()
 					key := fmt.Sprintf("cli-threshold/%s/%s@%d/%s/t=%s", id, v.Op, v.Site, ext, thr)
 					rp := map[string]interface{}{"base": id, "variant": vi, "threshold": thr}
@@ -121,7 +137,7 @@ func TestVerifC08CLI(t *testing.T) {
 					for _, a := range full {
 						k := a.MatchedFunction + "|" + a.SignatureID
 						cur[k] = a.Confidence
-						if thr == "0.01" {
+						if thr == "0.0000001" {
 							r.Count(fmt.Sprintf("confidence_band/%.2f", math.Floor(a.Confidence*20)/20), 1)
 						}
 						byFn[a.MatchedFunction] = append(byFn[a.MatchedFunction], a.Confidence)
@@ -136,6 +152,19 @@ func TestVerifC08CLI(t *testing.T) {
 					// (the order of alerts is the scanners' business: the command re-sorts its report by
 					// function and signature name, which C10 pins; no ordering is demanded here)
 					_ = byFn
+					for _, a := range viaWorker {
+						k := a.MatchedFunction + "|" + a.SignatureID
+						r.Count("alerts_judged_via_worker", 1)
+						if math.IsNaN(a.Confidence) || a.Confidence < tv {
+							bad = append(bad, fmt.Sprintf("default (re-executing) scan path: alert %s has confidence %v, lower than the threshold %s given on the command line", k, a.Confidence, thr))
+						}
+						if c, ok := cur[k]; !ok || c != a.Confidence {
+							bad = append(bad, fmt.Sprintf("default (re-executing) scan path reports %s with confidence %v; --no-sandbox at the same threshold: present=%v confidence=%v", k, a.Confidence, ok, c))
+						}
+					}
+					if werr == nil && len(viaWorker) != len(full) {
+						bad = append(bad, fmt.Sprintf("default (re-executing) scan path reports %d alerts, --no-sandbox %d at the same threshold", len(viaWorker), len(full)))
+					}
 					for _, a := range exact {
 						k := a.MatchedFunction + "|" + a.SignatureID
 						if a.Confidence < tv {
